@@ -102,6 +102,28 @@ CHECKS["C07"] = dict(
     technique="Coq proof over translator-generated command tables + model/implementation correspondence",
 )
 
+CHECKS["C06"] = dict(
+    category="proof",
+    text=("Coq state machine of ProtocolHandler.command/__call__ with the priority semaphore's contract; theorems for every event list "
+          "with distinct callers: a call returns only the payload of a frame that carried its own sequence number and frame id after its "
+          "request was sent; no frame completes another call; non-pending frames go to callbacks exactly once; at most one command in "
+          "flight and it holds the slot; queue always sorted by (priority, arrival) and the head starts; no slot leak; sequence numbers "
+          "consecutive mod 256; priority classes pinned over every command name of every version (generated). Tied to the real EZSP + "
+          "zigpy semaphore on a virtual loop by correspondence over exhaustive two-caller scripts and random multi-caller scripts."),
+    design_ref="DESIGN.md section 6 C06",
+    technique="Coq proof (global invariant over event lists) + model/implementation correspondence in virtual time",
+)
+CHECKS["C08"] = dict(
+    category="proof",
+    text=("Coq byte-level model of EZSP.frame_received over the generated tables; theorems for ANY byte string and any table: a pending "
+          "command is completed only by a frame with its own sequence number and frame id whose payload decodes fully; callbacks only for "
+          "fully decoding known frames; malformed frames change nothing; id mismatch completes nobody; later commands still complete; a "
+          "received frame never starts/cancels/times out commands. 'Never raises' is decided by the correspondence: real frame_received on "
+          "every truncation, byte flips, id/sequence substitution and random strings, versions 4/7/8/13/14 (thorough: all), inside try/except."),
+    design_ref="DESIGN.md section 6 C08",
+    technique="Coq proof over translator-generated tables + model/implementation correspondence on malformed frames",
+)
+
 NOT_YET = {}
 
 
